@@ -6,6 +6,7 @@ import (
 	"errors"
 	"fmt"
 	"reflect"
+	"sort"
 	"testing"
 
 	"github.com/google/osv-scalibr/detector"
@@ -47,6 +48,31 @@ type c20Finding struct {
 type c20Detector struct {
 	Findings []c20Finding `json:"findings"`
 	Fail     bool         `json:"fail,omitempty"`
+	// SameNameAs k > 0: the detector reports the name of detector k-1 (an earlier one) as its
+	// own, e.g. two versions of one detector enabled together. Each still gets a status entry
+	// of its own that reflects whether IT failed.
+	SameNameAs int `json:"same_name_as,omitempty"`
+	// Requires names a built-in extractor the detector declares as required. It is not among
+	// the configured extractors: the scan enables it itself, runs it, and its packages are in
+	// the index like all others.
+	Requires string `json:"requires,omitempty"`
+}
+
+// c20Required maps the built-in extractors a generated detector may require to the file
+// the tree then holds for it and the package that file declares.
+var c20Required = map[string]struct {
+	file, content string
+	pkg           recext.PkgKey
+}{
+	"python/requirements": {"requirements.txt", "reqpkg==1.2.3\n", recext.PkgKey{Name: "reqpkg", Version: "1.2.3", Extractor: "python/requirements", Locations: "requirements.txt"}},
+	"go/gomod":            {"go.mod", "module example.com/m\n\nrequire example.com/dep v1.4.0\n", recext.PkgKey{Name: "example.com/dep", Version: "1.4.0", Extractor: "go/gomod", Locations: "go.mod"}},
+}
+
+func (d c20Detector) name(i int) string {
+	if d.SameNameAs > 0 && d.SameNameAs <= i {
+		return fmt.Sprintf("fake/det%d", d.SameNameAs-1)
+	}
+	return fmt.Sprintf("fake/det%d", i)
 }
 
 type c20Case struct {
@@ -76,6 +102,12 @@ func genC20(t *rapid.T) c20Case {
 	nd := rapid.IntRange(0, 4).Draw(t, "n_detectors")
 	for i := 0; i < nd; i++ {
 		d := c20Detector{Fail: rapid.IntRange(0, 3).Draw(t, "fail") == 0}
+		if i > 0 && rapid.IntRange(0, 4).Draw(t, "same_name") == 0 {
+			d.SameNameAs = rapid.IntRange(1, i).Draw(t, "same_name_as")
+		}
+		if rapid.IntRange(0, 5).Draw(t, "requires") == 0 {
+			d.Requires = rapid.SampledFrom([]string{"python/requirements", "go/gomod"}).Draw(t, "required_extractor")
+		}
 		nf := rapid.IntRange(0, 3).Draw(t, "n_findings")
 		for j := 0; j < nf; j++ {
 			// advisories of one ID mostly share one body; a third of the findings differ from it in
@@ -172,7 +204,21 @@ func propC20(c c20Case) (ev.Outcome, error) {
 		px       *packageindex.PackageIndex
 		rootSame bool
 	}
-	mfs := memfs.New(c.Tree, memfs.Options{ReadDirFile: true})
+	tree := c.Tree
+	requiredNames := map[string]bool{}
+	for _, d := range c.Detectors {
+		if rq, ok := c20Required[d.Requires]; ok && !requiredNames[d.Requires] {
+			requiredNames[d.Requires] = true
+			has := false
+			for _, n := range tree.Nodes {
+				has = has || n.Path == rq.file
+			}
+			if !has {
+				tree = memfs.Tree{Nodes: append(append([]memfs.Node(nil), tree.Nodes...), memfs.Node{Path: rq.file, Kind: memfs.KFile, Content: rq.content})}.Normalize()
+			}
+		}
+	}
+	mfs := memfs.New(tree, memfs.Options{ReadDirFile: true})
 	roots := []*scalibrfs.ScanRoot{{FS: mfs, Path: ""}}
 	sawIdx := make([]*seen, len(c.Detectors))
 	returned := make([][]*detector.Finding, len(c.Detectors))
@@ -183,7 +229,10 @@ func propC20(c c20Case) (ev.Outcome, error) {
 	}
 	for i, d := range c.Detectors {
 		i, d := i, d
-		det := &recext.Detector{N: fmt.Sprintf("fake/det%d", i), Rec: rec}
+		det := &recext.Detector{N: d.name(i), Rec: rec}
+		if d.Requires != "" {
+			det.Req = []string{d.Requires}
+		}
 		det.Seen = func(root *scalibrfs.ScanRoot, px *packageindex.PackageIndex) {
 			sawIdx[i] = &seen{all: px.GetAll(), px: px, rootSame: root != nil && root.FS == scalibrfs.FS(mfs)}
 		}
@@ -223,6 +272,23 @@ func propC20(c c20Case) (ev.Outcome, error) {
 		for j := 0; j < 2; j++ {
 			want = append(want, recext.PkgKey{Name: fmt.Sprintf("fake/sa%d-sa%d", i, j), Version: "1", Extractor: fmt.Sprintf("fake/sa%d", i), Locations: "standalone"})
 		}
+	}
+	for name := range requiredNames {
+		// the extractor a detector requires was enabled by the scan and ran
+		want = append(want, c20Required[name].pkg)
+		n := 0
+		for _, st := range out.Statuses {
+			if st.Name == name {
+				n++
+				if st.Status != plugin.ScanStatusSucceeded {
+					return o, fmt.Errorf("extractor %s, required by a detector and enabled by the scan, has status %v", name, st.Status)
+				}
+			}
+		}
+		if n != 1 {
+			return o, fmt.Errorf("extractor %s is required by a detector but has %d status entries in the result: the scan did not run it", name, n)
+		}
+		o.Classes = append(o.Classes, "detector_requires_extractor_not_configured")
 	}
 	if d := diffPkgs(out.Packages, want); d != "" {
 		return o, fmt.Errorf("inventory differs from what the extractors returned: %s", d)
@@ -287,22 +353,35 @@ func propC20(c c20Case) (ev.Outcome, error) {
 				return o, fmt.Errorf("detector %s: the index holds %s@%s which is not an extracted package with a purl", det.N, p.Name, p.Version)
 			}
 		}
-		// status entry
-		nSt := 0
+		// status entries: one per detector; those of detectors sharing a name are told apart
+		// only by what they say, so the entries under a name are compared as a multiset
+		var gotSt, wantSt []int
 		for _, st := range out.Statuses {
 			if st.Name == det.N {
-				nSt++
-				wantSt := plugin.ScanStatusSucceeded
-				if c.Detectors[i].Fail {
-					wantSt = plugin.ScanStatusFailed
-				}
-				if st.Status != wantSt {
-					return o, fmt.Errorf("detector %s (returned error: %v) has status %v", det.N, c.Detectors[i].Fail, st.Status)
-				}
+				gotSt = append(gotSt, int(st.Status))
 			}
 		}
-		if nSt != 1 {
-			return o, fmt.Errorf("detector %s has %d status entries", det.N, nSt)
+		shared := 0
+		for j, dj := range c.Detectors {
+			if dj.name(j) == det.N {
+				shared++
+				w := plugin.ScanStatusSucceeded
+				if dj.Fail {
+					w = plugin.ScanStatusFailed
+				}
+				wantSt = append(wantSt, int(w))
+			}
+		}
+		sort.Ints(gotSt)
+		sort.Ints(wantSt)
+		if shared > 1 {
+			o.Classes = append(o.Classes, "detectors_share_a_name")
+			if wantSt[0] != wantSt[len(wantSt)-1] {
+				o.Classes = append(o.Classes, "detectors_share_a_name_outcomes_differ")
+			}
+		}
+		if fmt.Sprint(gotSt) != fmt.Sprint(wantSt) {
+			return o, fmt.Errorf("the %d detector(s) named %s have status entries %v, want %v (one per detector, failed = %d, succeeded = %d)", shared, det.N, gotSt, wantSt, plugin.ScanStatusFailed, plugin.ScanStatusSucceeded)
 		}
 	}
 	// advisory consistency (model)
